@@ -261,3 +261,24 @@ def state_shape(chk, prog):
             have = ["?%r" % (e,)]
         chk.soft("%s has no state other than %s (harness pre-states cover every reachable value)" % (tn.split(".")[-1], [f for f in fields if f != "_"]), have == fields, [], "type shape from SSA",
                  detail="fields now: %s" % have)
+
+
+def platform_independence(chk, prog):
+    """the contracts are proved from the SSA of this platform (64-bit int).  They carry over to 32-bit targets only if the
+    code does not depend on the platform word size: the SSA of every repo function must be the same for GOARCH=386 as for
+    the portable build here.  A difference leaves the check undecided and starts the native field battery under GOARCH=386."""
+    from sym import ir
+    from .c20 import strip, config_battery
+    try:
+        p2, p3 = ir.load("purego"), ir.load(goarch="386")
+    except Exception as e:
+        chk.note_inconclusive("GOARCH=386 configuration could not be loaded: %r" % (e,))
+        return
+    ours = [n for n, f in p2.funcs.items() if f.get("pkg", "").startswith("filippo.io/edwards25519")]
+    diff = [n for n in ours if n not in p3.funcs or strip(p2.funcs[n]) != strip(p3.funcs[n])]
+    ob = chk.soft("no platform-width dependent code: SSA of all %d functions identical for GOARCH=386 and for the portable build on amd64" % len(ours), not diff, [], "configuration", detail=str(diff[:5]))
+    if diff:
+        hit = config_battery(chk.seed, goarch="386")
+        if hit:
+            ob.verdict = "violated"
+            chk.violation("GOARCH=386", hit["what"], hit)
